@@ -158,6 +158,7 @@ def run(ctx, F):
             ctx.fail("F3-store-restore", "handle_item|@each", "a success path from store_local_values to the return of handle_item skips restore_local_values", path=[f"bb{x}" for x in p])
         else:
             ctx.ok("F3-store-restore", "handle_item|@each", {"store": s, "restores": restores})
+    callable_scopes(ctx, prog)
     ctx.explanation = ("Scope discipline extracted per Item arm of both interpreters (AST): where the body is evaluated (same scope / fresh sub-scope), where loop variables are defined, store/restore; "
                        "combined with whether Scope::set_variable can reach ancestors; exact shape of the !default guard; !global routing; CFG pairing of store/restore. "
                        "The full scoping relation over arbitrary nestings is a runtime relation and is not claimed.")
@@ -182,3 +183,35 @@ def default_guard_ok(cond):
     if not (b0.get("v") is True and b1.get("v") is False and m["arms"][1]["pat"].get("p") == "wild" and m["arms"][0].get("guard") is None):
         return False, "arms are not `=> true, _ => false`"
     return True, None
+
+
+def callable_scopes(ctx, prog):
+    """Mixin / function parameters and the variables assigned in their bodies are local: arguments are
+    bound in a scope that FormalArgs::eval creates with ScopeRef::sub on *every* success path, and the
+    body of a user function is evaluated in exactly that scope."""
+    from lib import sym
+    S = sym.Sym(prog, inline_depth=0)
+    fe = prog.one("<sass::formal_args::FormalArgs>::eval")
+    oks = []
+    for bi, si, s in fe.stmts():
+        if s["k"] == "assign" and s["p"][0] == 0 and s["rv"]["k"] == "agg" and s["rv"].get("variant") == "Ok":
+            oks.append(sym.strip_transparent(S.operand(fe, s["rv"]["ops"][0])))
+    good = oks and all(sym.match(t, ("call", "ScopeRef>::sub", [("param", 2)])) for t in oks)
+    if good:
+        ctx.ok("F4-callable-scope", "FormalArgs::eval always returns ScopeRef::sub(scope)", {"returns": [sym.show(t) for t in oks]})
+    else:
+        ctx.fail("F4-callable-scope", "FormalArgs::eval always returns ScopeRef::sub(scope)", f"FormalArgs::eval returns {[sym.show(t)[:80] for t in oks]}: on some path the arguments are bound (and the body then runs) in the caller-supplied scope itself, so assignments in a function/mixin body leak or overwrite outer variables", where=fe.where())
+    for name in ("<sass::callable::Closure>::eval_value",):
+        b = prog.one(name)
+        bodies = [(bi, t) for bi, t in b.calls() if (mir.callee_name(t) or "").endswith("ScopeRef>::eval_body")]
+        ok = bodies and all(sym.match(sym.strip_transparent(S.operand(b, t["args"][0])), ("try", ("call", "Closure>::eval_args", None), [])) for bi, t in bodies)
+        if ok:
+            ctx.ok("F4-callable-scope", "Closure::eval_value runs the body in the scope returned by eval_args", None)
+        else:
+            ctx.fail("F4-callable-scope", "Closure::eval_value runs the body in the scope returned by eval_args", f"the body of a user function is evaluated in `{[sym.show(sym.strip_transparent(S.operand(b, t['args'][0])))[:100] for bi, t in bodies]}`", where=b.where())
+        args = [(bi, t) for bi, t in b.calls() if (mir.callee_name(t) or "").endswith("Closure>::eval_args")]
+        ok2 = args and all(sym.strip_transparent(S.operand(b, t["args"][1]))[0] == "call" and sym.strip_transparent(S.operand(b, t["args"][1]))[1].endswith(("ScopeRef>::sub_selectors", "ScopeRef>::sub")) for bi, t in args)
+        if ok2:
+            ctx.ok("F4-callable-scope", "Closure::eval_value binds arguments under a fresh sub-scope of the declaring scope", None)
+        else:
+            ctx.fail("F4-callable-scope", "Closure::eval_value binds arguments under a fresh sub-scope of the declaring scope", f"eval_args receives `{[sym.show(sym.strip_transparent(S.operand(b, t['args'][1])))[:100] for bi, t in args]}`", where=b.where())
